@@ -275,7 +275,11 @@ void genC14(uint64_t seed, int tier, Scenario& sc) {
     pushSend(sc, "isready");
     sc.ops.push_back("wait_readyok");
     pushSend(sc, probe.positionCmd);
-    if (r.chance(0.75)) pushSend(sc, "go depth " + std::to_string(r.range(tier > 0 ? 6 : 5, tier > 0 ? 11 : 8)));
+    if (r.chance(0.75)) {
+        long long d = r.range(tier > 0 ? 6 : 5, tier > 0 ? 11 : 8);
+        // deep probes carry a node cap so that a badly ordered search cannot exhaust the node budget of the run
+        pushSend(sc, "go depth " + std::to_string(d) + (d >= 7 ? " nodes 400000" : ""));
+    }
     else pushSend(sc, "go nodes " + std::to_string(r.logRange(2000, tier > 0 ? 200000 : 40000)));
     sc.ops.push_back("wait_bestmove");
     pushSend(sc, "quit");
